@@ -562,4 +562,20 @@ def findStringMatchStart (filter : Option Filter) (rtl : Bool) (input : List Nat
     let startAt : Nat := if startAt < 0 then (if rtl then input.length else 0) else startAt.toNat
     .ok (findStringPrefixCandidate filter rtl input startAt)
 
+
+/-! ### the filter as the string entry points use it -/
+
+/-- What `Model/Api.lean` calls `filter`, made concrete: a left-to-right string entry point calls
+    `findStringMatchStart(s, -1)`; on `ok` it decodes the string and maps the candidate BYTE index to a RUNE
+    index (`getRunesAndStart` / `decodeStringWithStart`, modelled by `Utf8.runeStart` on the decoded segments),
+    replacing "not found" (`-1`) by 0.  `none` = the entry point answers "no match" without running a program. -/
+def runeFilter (filter : Option Filter) (input : List Nat) : Nat → Option Nat := fun _ =>
+  match findStringMatchStart filter false input (-1) with
+  | .error _ => none
+  | .ok r =>
+    if r.2 then
+      let rs := runeStart (decode input) (r.1 : Int)
+      some (if rs < 0 then 0 else rs.toNat)
+    else none
+
 end RegexVerif.StringFilter
